@@ -129,6 +129,9 @@ func checkC17(c c17Case) verdict {
 		if !bytes.Equal(got, be8(c.U)) {
 			return bad(true, labels, "To8ByteBigEndian(%d) = %x, want %x", c.U, got, be8(c.U))
 		}
+		if e := retainBytes(got, "To8ByteBigEndian"); e != nil {
+			return bad(true, labels, "%v", e)
+		}
 		return ok(c.U >= 1<<32, labels...)
 	case "ParseDecimalToBigEndian8", "ParseDecimal64BigEndian":
 		var got []byte
@@ -168,6 +171,9 @@ func checkC17(c c17Case) verdict {
 		}
 		if err != nil || !bytes.Equal(got, be8(v.Uint64())) {
 			return bad(true, labels, "%s(%q) = %x, %v; want %x", c.Fn, s, got, err, be8(v.Uint64()))
+		}
+		if e := retainBytes(got, c.Fn); e != nil {
+			return bad(true, labels, "%v", e)
 		}
 		return ok(v.Uint64() >= 1<<32 || len(s) != len(v.String()), labels...)
 	case "LeftPadHex":
@@ -218,6 +224,9 @@ func checkC17(c c17Case) verdict {
 		if err != nil || !bytes.Equal(got, be8(v.Uint64())) {
 			return bad(true, labels, "ParseHexTimestamp(%q) = %x, %v; want the 8 bytes %x", s, got, err, be8(v.Uint64()))
 		}
+		if e := retainBytes(got, "ParseHexTimestamp"); e != nil {
+			return bad(true, labels, "%v", e)
+		}
 		return ok(len(s)%2 == 1 || v.Uint64() >= 1<<32, labels...)
 	case "HexInputToOCRA":
 		in, err := otp.HexInputToOCRA(c.F[0], c.F[1], c.F[2], c.F[3], c.F[4])
@@ -244,6 +253,9 @@ func checkC17(c c17Case) verdict {
 			return ok(true, labels...)
 		}
 		got := [5][]byte{in.Counter, in.Challenge, in.Password, in.SessionInfo, in.Timestamp}
+		if e := retainBytes(in.Challenge, "HexInputToOCRA challenge"); e != nil {
+			return bad(true, labels, "%v", e)
+		}
 		for i := range got {
 			if err != nil || !bytes.Equal(got[i], want[i]) || (c.F[i] == "") != (got[i] == nil) {
 				return bad(true, labels, "HexInputToOCRA(%q): field %d = %x (nil=%v), %v; want %x", c.F, i, got[i], got[i] == nil, err, want[i])
@@ -274,6 +286,9 @@ func checkC17(c c17Case) verdict {
 		}
 		if err != nil || !bytes.Equal(got, want) {
 			return bad(true, labels, "ParseDecimalChallengeRFC6287(%q) = %x, %v; RFC 6287 conversion (hex %s right-padded to 128 bytes) is %x", s, got, err, decToHex(body), want)
+		}
+		if e := retainBytes(got, "ParseDecimalChallengeRFC6287"); e != nil {
+			return bad(true, labels, "%v", e)
 		}
 		if len(decToHex(body))%2 == 1 {
 			labels = append(labels, "odd-hex")
